@@ -1,5 +1,6 @@
 import LokiModel.C32.DcProof
 import LokiModel.C32.CpProof
+import LokiModel.C32.CpLoop
 /-!
 # C32 — constant propagation and code removal preserve behaviour (property theorems)
 
@@ -13,8 +14,12 @@ on the covered expression class, `cpStmts`/`cpProgram` = `ConstantPropagationTra
 * `C32_mapper_sound` — the expression mapper preserves values under a constants map that holds in the state, outside the
   two folds that are correct only for integer operands.
 * `C32_constprop_sound_loopfree` — the invariant "every entry of the constants map holds in every state reaching this
-  point" for straight-line code and conditionals, hence behaviour preservation for loop-free bodies.  Loops, SELECT,
-  ASSOCIATE, calls are outside the theorem: the unchanged code is wrong there (see `LokiModel/Findings/C32.lean`).
+  point" for straight-line code and conditionals, hence behaviour preservation for loop-free bodies.
+* `C32_constprop_sound` — the same through DO and DO WHILE loops with EXIT / CYCLE (the repaired `visit_Loop` /
+  `visit_WhileLoop`, fix: be169e3): the map the body is visited with holds at the top of every iteration
+  (`C32_loop_body_frame`), the map after the loop holds when the loop has been left.
+  SELECT, ASSOCIATE and calls are outside the theorems (SELECT and ASSOCIATE are still wrong in the code, see
+  `LokiModel/Findings/C32.lean`; calls are repaired, 7abc3d8, but not covered by a theorem).
 -/
 namespace LokiModel.C32
 open LokiModel.Fir
@@ -68,7 +73,7 @@ cells have their declared types (`Inv`), if the incoming map holds then the rewr
 run with the same fuel, and the outgoing map holds in the final state. -/
 theorem C32_constprop_sound_loopfree (arrs : List String) (Γ : String → Option Ty) (P : Program) (f : Nat)
     (ss ss' : List Stmt) (m m' : CMap) (st st' : St) (sig : Sig)
-    (hok : cpOK arrs Γ ss m = true) (hc : cpStmts arrs false ss m = some (ss', m'))
+    (hok : cpOK arrs Γ ss m = true) (hc : cpStmts arrs ss m = some (ss', m'))
     (hi : Inv arrs Γ st) (hm : Holds m st) (h : execStmts P f ss st = .ok st' sig) :
     execStmts P f ss' st = .ok st' sig ∧ Holds m' st' :=
   let r := (cpSim (arrs := arrs) (Γ := Γ) (P := P) f).stmts ss ss' m m' st st' sig hok hc hi hm h
@@ -77,13 +82,56 @@ theorem C32_constprop_sound_loopfree (arrs : List String) (Γ : String → Optio
 /-- the invariant is what the proof maintains at every statement: map entries are facts of the state -/
 theorem C32_constprop_invariant (arrs : List String) (Γ : String → Option Ty) (P : Program) (f : Nat)
     (s s' : Stmt) (m m' : CMap) (st st' : St) (sig : Sig)
-    (hok : cpOKS arrs Γ s m = true) (hc : cpStmt arrs false s m = some (s', m'))
+    (hok : cpOKS arrs Γ s m = true) (hc : cpStmt arrs s m = some (s', m'))
     (hi : Inv arrs Γ st) (hm : Holds m st) (h : execStmt P f s st = .ok st' sig) :
     Inv arrs Γ st' ∧ Holds m' st' :=
   let r := (cpSim (arrs := arrs) (Γ := Γ) (P := P) f).stmt s s' m m' st st' sig hok hc hi hm h
   ⟨r.2.1, r.2.2.1⟩
 
+/-- **constprop_sound** (bodies with DO / DO WHILE loops, EXIT, CYCLE, IF/ELSE, scalar and element assignments, PRINT):
+domain `cpOKL` (decidable, computed along the model's run; excludes the open class `cp-literal-type-conversion` and the two
+type-dependent folds), map keys are scalar names (`KeysScalar`, true of `declMap`), alias-free state whose scalar cells have
+their declared types (`Inv`).  If the incoming map holds, the rewritten body computes the same finished run with the same
+fuel, and after a normal completion the outgoing map holds in the final state. -/
+theorem C32_constprop_sound (arrs : List String) (Γ : String → Option Ty) (P : Program) (f : Nat)
+    (ss ss' : List Stmt) (m m' : CMap) (st st' : St) (sig : Sig)
+    (hok : cpOKL arrs Γ ss m = true) (hc : cpStmts arrs ss m = some (ss', m')) (hk : KeysScalar arrs m)
+    (hi : Inv arrs Γ st) (hm : Holds m st) (h : execStmts P f ss st = .ok st' sig) :
+    execStmts P f ss' st = .ok st' sig ∧ (sig = .normal → Holds m' st') :=
+  let r := (cpSimL (arrs := arrs) (Γ := Γ) (P := P) f).stmts ss ss' m m' st st' sig hok hc hk hi hm h
+  ⟨r.1, fun hn => (r.2.2.1 hn).1⟩
+
+/-- what makes the loop rule sound: a body of the covered statement kinds leaves the cell of every scalar name outside
+`modNames` (what `_modified_symbols` collects) alone, whatever the number of iterations and however it is left -/
+theorem C32_loop_body_frame (arrs : List String) (P : Program) (f : Nat) (ss : List Stmt) (st st' : St) (sig : Sig)
+    (hok : frameOK arrs ss = true) (ha : st.alias = []) (h : execStmts P f ss st = .ok st' sig)
+    (x : String) (hx : arrs.contains x = false) (hm : x ∉ modNames arrs ss) : lookupCell st' x = lookupCell st x :=
+  ((frame arrs P f).stmts ss st st' sig hok ha h).2 x hx hm
+
 /-! ### non-vacuity -/
+
+/-- `x = 1; do i = 1, 3; y(i) = x; x = 2; end do; z = x` is inside the domain; the model leaves `y(i) = x` and
+propagates `z = 2` -/
+example : cpOKL ["y"] (fun _ => some .int)
+    [.assign (.var "x") (.lit (.int 1)),
+     .doLoop "i" (.lit (.int 1)) (.lit (.int 3)) none
+       [.assign (.idx "y" [.var "i"]) (.var "x"), .assign (.var "x") (.lit (.int 2))],
+     .assign (.var "z") (.var "x")] [] = true := by
+  rfl
+
+example : (cpStmts ["y"]
+    [.assign (.var "x") (.lit (.int 1)),
+     .doLoop "i" (.lit (.int 1)) (.lit (.int 3)) none
+       [.assign (.idx "y" [.var "i"]) (.var "x"), .assign (.var "x") (.lit (.int 2))],
+     .assign (.var "z") (.var "x")] []).map (·.1) = some
+    [.assign (.var "x") (.lit (.int 1)),
+     .doLoop "i" (.lit (.int 1)) (.lit (.int 3)) none
+       [.assign (.idx "y" [.var "i"]) (.var "x"), .assign (.var "x") (.lit (.int 2))],
+     .assign (.var "z") (.lit (.int 2))] := by
+  rfl
+
+example : KeysScalar ["y"] [] := by intro x v h; simp [CMap.get] at h
+
 
 /-- `if (1 < 2 .and. p) then x = 1 else x = 2` keeps the IF with condition `p`; `if (.not. (3 == 3)) …` is pruned -/
 example : dcStmts true
@@ -94,7 +142,7 @@ example : dcStmts true
   rfl
 
 /-- `x = 3; y = x + 2; if (p) then z = y else z = 5` becomes `x = 3; y = 5; if (p) then z = 5 else z = 5`, map `z ↦ 5` -/
-example : (cpStmts [] false
+example : (cpStmts []
     [.assign (.var "x") (.lit (.int 3)), .assign (.var "y") (.bin .add (.var "x") (.lit (.int 2))),
      .ifte (.var "p") [.assign (.var "z") (.var "y")] [.assign (.var "z") (.lit (.int 5))]] []).map (·.1)
     = some [.assign (.var "x") (.lit (.int 3)), .assign (.var "y") (.lit (.int 5)),
